@@ -11,7 +11,8 @@ import sys
 import tempfile
 import time
 
-from common import VERIF, REPO, EVIDENCE_DIR
+from common import VERIF, REPO
+EVIDENCE_DIR = os.path.join(VERIF, "evidence")
 
 
 def run_one(d, tier):
@@ -26,7 +27,7 @@ def run_one(d, tier):
         if p.returncode != 0:
             res.update(status="patch-failed", detail=p.stdout[-300:])
             return res
-        env = dict(os.environ, DENDROPY_REPO=scratch, VERIF_TIER=tier)
+        env = dict(os.environ, DENDROPY_REPO=scratch, VERIF_TIER=tier, VERIF_EVIDENCE_DIR=os.path.join(scratch, "evidence"))
         t0 = time.time()
         c = subprocess.run([os.path.join(VERIF, "check"), prop, "--tier", tier], env=env, stdout=subprocess.PIPE,
                            stderr=subprocess.STDOUT, text=True, timeout=3600)
